@@ -34,11 +34,11 @@ REL = "ariadne_codegen/graphql_schema_generators/"
 
 # Python twin of Lean `SchemaWF.shadowSensitive` (agreement is checked through the driver on every case)
 SHADOW_SENSITIVE = ["DirectiveLocation", "GraphQLArgument", "GraphQLDirective", "GraphQLField", "GraphQLInputField",
-                    "GraphQLInterfaceType", "GraphQLList", "GraphQLNonNull", "GraphQLObjectType", "GraphQLSchema", "GraphQLID",
+                    "GraphQLList", "GraphQLNonNull", "GraphQLSchema", "GraphQLID",
                     "GraphQLInt", "GraphQLFloat", "GraphQLString", "GraphQLBoolean", "Undefined", "cast", "List"]
 # imported names that the module only needs before the type-map variable is bound (or merely needs to be bound)
 SHADOW_HARMLESS = ["GraphQLScalarType", "GraphQLEnumType", "GraphQLUnionType", "GraphQLInputObjectType", "GraphQLEnumValue",
-                   "GraphQLNamedType", "TypeMap"]
+                   "GraphQLNamedType", "TypeMap", "GraphQLObjectType", "GraphQLInterfaceType"]
 PLAIN_NAMES = ["type_map", "schema", "tm", "sv", "_", "__", "match", "case", "type", "é", "TYPES", "my_schema_2", "print", "dict",
                "__name__", "self", "lambda_", "graphql", "typing"]
 
